@@ -101,7 +101,8 @@ class LtlAstParserVisitor(LtlParserVisitor):
                 if id_tail:
                     raise RTAMTException('{0} refers to undeclared variable {1} of unknown type'.format(id, id_head))
                 else:
-                    self.declare_var(id, 'float')
+                    # (an identifier with a trailing dot names the variable before the dot, as it does for a declared one)
+                    self.declare_var(id_head, 'float')
                     logging.warning('The variable {} is not explicitely declared. It is implicitely declared as a '
                                 'variable of type float'.format(id))
 
@@ -402,8 +403,8 @@ class LtlAstParserVisitor(LtlParserVisitor):
                 raise RTAMTException('{0} refers to undeclared variable {1} of unknown type'.format(id, id_head))
             else:
                 var = float()
-                self.var_object_dict[id] = var
-                self.add_var(id)
+                self.var_object_dict[id_head] = var
+                self.add_var(id_head)
                 if not implicit:
                     logging.warning('The variable {} is not explicitly declared. It is implicitly declared as a '
                                     'variable of type float'.format(id))
